@@ -638,9 +638,9 @@ def meta_is_never_inherited(ctx: Ctx) -> None:
                 g = g or build_cfg(m.node)
                 owner = unparse(node.value)
                 cn = g.node_of(node)
-                guards = [t for t in g.nodes if t.kind == "test" and isinstance(t.ast, ast.Compare) and isinstance(t.ast.ops[0], ast.In) and isinstance(t.ast.left, ast.Constant)
+                guards = [t for t in g.nodes if t.kind == "test" and isinstance(t.ast, ast.Compare) and isinstance(t.ast.ops[0], (ast.In, ast.NotIn)) and isinstance(t.ast.left, ast.Constant)
                           and t.ast.left.value == "Meta" and unparse(t.ast.comparators[0]) == f"{owner}.__dict__"]
-                ok = cn is not None and any(g.only_if(cn.id, t.id, True) for t in guards)
+                ok = cn is not None and any(g.only_if(cn.id, t.id, isinstance(t.ast.ops[0], ast.In)) for t in guards)
                 # conditional expression form:  X.Meta if "Meta" in X.__dict__ else None
                 if not ok:
                     for ife in walk_no_nested(m.node):
